@@ -67,8 +67,9 @@ class Contract(object):
     def __init__(self, target, params=None, cases=None, requires=(), ensures=(), raises=None,
                  raises_ensures=None, returns=None, assigns=(), loops=None, inline=(), specns=None,
                  prop=None, note='', pure=False, may_raise_any=False, trusted=False, exc_ensures=(),
-                 setup=None, model=None, raises_local=None, raises_only_if=None):
+                 setup=None, model=None, raises_local=None, raises_only_if=None, heavy=False):
         self.target = target
+        self.heavy = heavy              # many paths: explore in parallel worker processes
         self.raises_only_if = raises_only_if or {}   # class -> pre-state condition implied by the raise
         self.raises_local = raises_local or {}   # class -> condition over the locals at the raise
         self.model = model              # python summary used at call sites (trusted contracts)
@@ -437,7 +438,8 @@ class Engine(object):
         has = Z.func('hasattr:' + name, Z.Obj, Z.Bool)(v.z)
         if not ctx.branch(has):
             return None
-        return VObj(ctx.attr_read('*.' + name, Z.Obj, v.z))
+        t = getattr(self, 'attr_types', {}).get(name)
+        return VObj(ctx.attr_read('*.' + name, Z.Obj, v.z), t.cls if t is not None else None)
 
     def opaque_setattr(self, ctx, v, name, val, node):
         oc = self.opaque.get(v.cls)
@@ -625,6 +627,9 @@ class Engine(object):
         if fr.spec:
             return I.call_inline(ctx, fr, fv, args, kwargs, node, star, selfv)
         if c is not None and c.model is not None:
+            if star is not None:
+                kwargs = dict(kwargs)
+                kwargs['__star__'] = star
             return c.model(I, ctx, *args, **kwargs)
         if c is not None and (cur is None or fv.qualname not in cur.inline):
             return self.call_contract(ctx, fr, fv, c, args, kwargs, node, star, selfv)
@@ -759,7 +764,8 @@ class Engine(object):
     # ------------------------------------------------------------------
     # verification of one function against its contract
 
-    def verify(self, target, budget_paths=4000, ground=None):
+    def verify(self, target, budget_paths=4000, ground=None, only_case=None, initial_worklist=None, bfs=False,
+               keep_frontier=False):
         """ground=n: refutation mode -- every sequence parameter gets concrete
         length n (loops unroll, spec folds unfold).  Ground runs only ever
         produce counterexamples; nothing is proved by them."""
@@ -776,10 +782,13 @@ class Engine(object):
         res.file = os.path.relpath(mod.path, self.repo.root)
         self._check_loop_keys(c, fnode, res)
         cases = c.cases or [('', {})]
-        for label, over in cases:
+        res.frontier = []
+        for ci, (label, over) in enumerate(cases):
+            if only_case is not None and ci != only_case:
+                continue
             params = dict(c.params)
             params.update(over)
-            self._verify_case(c, mod, fnode, params, label, res, budget_paths)
+            self._verify_case(c, mod, fnode, params, label, res, budget_paths, initial_worklist, bfs, keep_frontier)
         return res
 
     def verify_node(self, c, mod, fnode, label='', budget_paths=2000):
@@ -804,10 +813,11 @@ class Engine(object):
                 res.notes = getattr(res, 'notes', [])
                 res.notes.append('loop %r of the contract is not in the source' % (k,))
 
-    def _verify_case(self, c, mod, fnode, params, label, res, budget_paths):
+    def _verify_case(self, c, mod, fnode, params, label, res, budget_paths, initial_worklist=None, bfs=False,
+                     keep_frontier=False):
         I = self.interp
         self.current = c
-        self.worklist = [[]]
+        self.worklist = [list(t) for t in initial_worklist] if initial_worklist else [[]]
         qual = c.target
         cls = None
         short = qual[len(mod.name) + 1:]
@@ -815,12 +825,16 @@ class Engine(object):
             cls = '%s.%s' % (mod.name, short.rsplit('.', 1)[0])
         fname = qual.split('clastic.', 1)[-1] + (('[%s]' % label) if label else '')
         npaths = 0
+        seen_obls = {}
         while self.worklist:
-            trail = self.worklist.pop()
-            npaths += 1
-            if npaths > budget_paths:
-                res.undecided.append(('path budget exceeded (%d)' % budget_paths, None))
+            if npaths >= budget_paths:
+                if keep_frontier:
+                    res.frontier = list(self.worklist)
+                else:
+                    res.undecided.append(('path budget exceeded (%d)' % budget_paths, None))
                 break
+            trail = self.worklist.pop(0) if bfs else self.worklist.pop()
+            npaths += 1
             Z.reset_names()
             ctx = Ctx(self, trail)
             ctx.func = fname
@@ -834,7 +848,12 @@ class Engine(object):
                 res.undecided.append(('contract error: %s' % e, None))
             except RecursionError:
                 res.undecided.append(('recursion limit', None))
-            res.obligations.extend(ctx.obls)
+            for o in ctx.obls:
+                key = (o.clause, o.goal.get_id(), tuple(p.get_id() for p in o.pc))
+                if key in seen_obls:
+                    continue
+                seen_obls[key] = o      # keeps the terms (and so their ids) alive
+                res.obligations.append(o)
         res.paths += npaths
         self.stats['paths'] += npaths
         self.current = None
